@@ -22,6 +22,9 @@ MUT = [
  ("tip-ge", "chain/src/verify.rs", "let new_best_block = cannon_total_difficulty > current_total_difficulty;", "let new_best_block = cannon_total_difficulty >= current_total_difficulty;", "C01", "m1"),
  ("tip-ignores-reconcile-error", "chain/src/verify.rs", "            self.reconcile_main_chain(Arc::clone(&db_txn), &mut fork, switch)?;", "            let _ = self.reconcile_main_chain(Arc::clone(&db_txn), &mut fork, switch);", "C01", "m1"),
  ("snapshot-old-difficulty", "chain/src/verify.rs", ".new_snapshot(tip_header, cannon_total_difficulty, epoch, new_proposals);", ".new_snapshot(tip_header, current_total_difficulty, epoch, new_proposals);", "C01", "m1"),
+ ("locator-step-late", "sync/src/types/mod.rs", "            if locator.len() >= 10 {\n                step <<= 1;", "            if locator.len() > 10 {\n                step <<= 1;", "C17", "m4"),
+ ("locator-base-stale", "sync/src/types/mod.rs", "            index -= step;\n            base = header_hash;", "            index -= step;", "C17", "m4"),
+ ("prefilled-last-index-le", "sync/src/relayer/compact_block_verifier.rs", "            if index >= txs_len {", "            if index > txs_len {", "C16", "m5"),
  ("evict-key-min", "tx-pool/src/component/entry.rs", "            fee_rate: descendants_feerate.max(feerate),", "            fee_rate: descendants_feerate.min(feerate),", "C11", "m4"),
 ]
 sel = set(sys.argv[1:])
